@@ -1100,7 +1100,7 @@ func (c *ctx) evalTree(root *TNode, ptn uint64, src string, emit bool) {
 		for i := range full.etxVals {
 			obs = append(obs, fmt.Sprint(tagOfValue(full.etxVals[i])))
 		}
-		c.cw.Add(fmt.Sprintf("CM %d %s %s %s %d %d", c.treeID, hlib.CoqList(db), p.eframe, hlib.CoqList(obs), full.nHashes, full.nDel), cj)
+		c.addOld(fmt.Sprintf("CM %d %s %s %s %d %d", c.treeID, hlib.CoqList(db), p.eframe, hlib.CoqList(obs), full.nHashes, full.nDel), cj)
 		c.rep.TracesValidated++
 		c.rep.Sample(cj)
 		c.treeID++
